@@ -26,6 +26,7 @@ def main (args : List String) : IO UInt32 := do
     if funcFamilies.contains fam then Funcs.accept lines
     else if fam == "terminal" then acceptTerminal lines
     else if fam == "memman" then acceptMemMan lines
+    else if fam == "ctable" then acceptCTable lines
     else ({} : Report).addDiff s!"line=0 kind=unknown-family {fam}"
   rep.print
   return (if rep.ok then 0 else 1)
